@@ -47,6 +47,11 @@ CHECKS = {
          "Field paths of depth 0..4 in 4 spellings x every binding configuration (chain stops at any level: root unbound, field missing, null, int, string, list, empty map; or reaches a null/value/map leaf) x has() in 9 contexts and through a loop variable and coalesce(e, 'dflt') in 5 contexts and through a loop variable; every coalesce argument list of length 0..4/5 over 14 item kinds (present, null, unbound, missing field/index, null field, foldable and run-time division by zero, type error, bad index, call-recording present/null) in 4 contexts with the exact set of evaluated arguments; has() over each item. Complete for these bounds only.",
          "A field looked up on a non-map value may count as absent or other; only consistency between has, coalesce and all contexts is demanded there.",
          "DESIGN.md section 3, C08"),
+ "C09": ("exploration",
+         "bounded exhaustive differential enumeration: every template x every hole-value tuple x every subset of holes rendered as literal instead of bound variable x one hole left unbound; all renderings of one case must agree",
+         "147 expression templates with 1..3 holes (every operator, ?:, match, list/map construction incl. repeated keys, index, member, type constructors, built-ins with constant and partly constant arguments, has/coalesce, every macro, foldable calls around constructs that absorb failures) x every tuple of hole values from a 15/25-value pool x (all holes bound | hole j left unbound) x every subset of the bound holes written as a literal: the all-variable rendering runs entirely in the VM, the all-literal one entirely in the compiler; all must give the same value bit for bit or all fail in the same absent/other class. 8 programs reading the clock are compiled once and executed three times 12 ms apart (strictly later results, no timestamp constant in the bytecode). Complete for these bounds only.",
+         "No third oracle: the comparison is differential. Assumes the wall clock does not step back by 5 ms between observations. Built-in functions are not rebound by the caller (as the property states).",
+         "DESIGN.md section 3, C09"),
  "C10": ("model_checking",
          "explicit-state exploration of an abstract stack machine (block, pc, height) over all paths of every emitted block, bound to the implementation by replaying real VM traces (hook) against the model; exhaustive enumeration of short instruction sequences against a reference small-step VM",
          "For 12.5k/0.3M generated programs (C09's templates in every literal/variable mask, all || && ?: ! trees with <=2/3 internal nodes over 4 atoms, match with 0..2/3 cases x 6 patterns x 6 arms x 4 scrutinees, f-strings, macros with branching bodies, chains) every block incl. nested code blocks is explored over ALL paths: every reachable (pc, height) state, jump targets in range and forward, no pop from an empty stack, one height per pc, height 1 at the end. Every real execution under every assignment of up to 3 variables over 4 values is replayed against the model (same heights, only model edges). All instruction sequences of length 1..3/4 over 7 plain instructions and jmp/jmp-if with every forward distance and 3 out-of-range distances are loaded through the public deserialiser and compared with a reference VM. Evidence reports states, transitions, blocks, traces validated and model edges covered.",
